@@ -24,18 +24,28 @@ def _api():
 class World:
     """Real objects for the abstract ids: projects 1,2; modules 1..nm (1,2 = outputs); patterns 1..np."""
 
-    def __init__(self, nm, np_, classes):
+    def __init__(self, nm, np_, classes, extra_output=False):
         api = _api()[0]
+        self.extra_output = extra_output
         self.api = api
         self.nm, self.np = nm, np_
         self.classes = classes
         self.proj = {1: api.Project(), 2: api.Project()}
         self.mod = {1: self.proj[1].output, 2: self.proj[2].output}
         for m in range(3, nm + 1):
-            self.mod[m] = classes[m % len(classes)]()
+            self.mod[m] = self.cls_of(m)()
         self.pat = {}
-        for q in range(1, np_ + 1):
-            self.pat[q] = api.Pattern(tracks=1, lines=1)
+        for q in range(1, np_ + 1):     # pattern 1 (and odd ids) are Patterns with one note; even ids are PatternClones
+            self.pat[q] = api.Pattern(tracks=1, lines=1) if q % 2 == 1 else api.PatternClone(source=0)
+
+    def cls_of(self, m):
+        """The last free module id is a free Output instance (a second Output must never take over Project.output)."""
+        if self.extra_output and m == self.nm and self.nm >= 4:
+            return self.api.m.Output
+        return self.classes[m % len(self.classes)]
+
+    def is_clone(self, q):
+        return q % 2 == 0
 
     # -- state injection through public attributes
     def inject(self, s):
@@ -55,7 +65,8 @@ class World:
             o = self.pat[q]
             pr = s["pproj"][q - 1]
             o.project = self.proj[pr] if pr else None
-            o.data[0][0].module = s["nmod"][q - 1]
+            if not self.is_clone(q):
+                o.data[0][0].module = s["nmod"][q - 1]
 
     def mid(self, o):
         if o is None:
@@ -84,10 +95,12 @@ class World:
         for P in (1, 2):
             s["slots"].append([self.mid(m) for m in self.proj[P].modules])
             s["pats"].append([self.qid(q) for q in self.proj[P].patterns])
-        s["index"] = [(-1 if self.mod[m].index is None else int(self.mod[m].index)) for m in range(1, self.nm + 1)]
+        # (the Output class carries index = 0 as a class attribute: a free Output instance is projected as having no index)
+        s["index"] = [(-1 if (self.mod[m].index is None or self.mod[m].parent is None) else int(self.mod[m].index)) for m in range(1, self.nm + 1)]
+        s["output"] = [self.mid(self.proj[P].output) for P in (1, 2)]
         s["parent"] = [self.pid(self.mod[m].parent) for m in range(1, self.nm + 1)]
         s["pproj"] = [self.pid(self.pat[q].project) for q in range(1, self.np + 1)]
-        s["nmod"] = [int(self.pat[q].data[0][0].module) for q in range(1, self.np + 1)]
+        s["nmod"] = [0 if self.is_clone(q) else int(self.pat[q].data[0][0].module) for q in range(1, self.np + 1)]
         return s
 
     def item(self, it):
@@ -104,7 +117,7 @@ class World:
                 ret = self.mid(r)
             elif act == "new_module":
                 P, m = args
-                cls = self.classes[m % len(self.classes)]
+                cls = self.cls_of(m)
                 o = self.proj[P].new_module(cls)
                 self.mod[m] = o
                 ret = m
@@ -220,8 +233,8 @@ def graph_replay(ctx, nm, np_, maxslots, maxpats, emitk, timeout=2400):
         raise MachineryError("no transition emitted")
 
 
-def random_history(rnd, tid, nm, np_, length):
-    w = World(nm, np_, classes())
+def random_history(rnd, tid, nm, np_, length, extra_output=False):
+    w = World(nm, np_, classes(), extra_output=extra_output)
     ev = []
     for _ in range(length):
         r = rnd.random()
@@ -246,9 +259,12 @@ def random_history(rnd, tid, nm, np_, length):
         elif r < 0.80:
             act, args = "saveload", [P]
         elif r < 0.90:
-            act, args = "set_note_mod", [rnd.randrange(1, np_ + 1), rnd.randrange(1, nm + 1)]
+            act, args = "set_note_mod", [rnd.choice([q for q in range(1, np_ + 1) if q % 2 == 1]), rnd.randrange(1, nm + 1)]
         else:
-            act, args = "get_note_mod", [rnd.randrange(1, np_ + 1)]
+            act, args = "get_note_mod", [rnd.choice([q for q in range(1, np_ + 1) if q % 2 == 1])]
+        if act == "saveload" and extra_output and w.mod[nm] in w.proj[args[0]].modules:
+            # a project holding a second Output instance cannot be written and read back (no STYP for Output): not part of C14
+            act, args = "attach_none", [args[0]]
         out, ret = w.do(act, args, rnd)
         ev.append({"op": act, "args": args, "outcome": out, "ret": ret, "post": w.project()})
     return {"id": tid, "nm": nm, "np": np_, "events": ev}
@@ -269,7 +285,8 @@ def run(ctx):
     traces = []
     nt, ln = (150, 50) if q else (2000, 100)
     for t in range(nt):
-        traces.append(random_history(rnd, "h%d" % t, rnd.randrange(4, 10), rnd.randrange(1, 5), rnd.randrange(ln // 2, ln + 1)))
+        traces.append(random_history(rnd, "h%d" % t, rnd.randrange(4, 10), rnd.randrange(1, 5), rnd.randrange(ln // 2, ln + 1),
+                                     extra_output=(t % 3 == 0)))
     for tr in traces:
         for i, e in enumerate(tr["events"]):
             ctx.count_case((tr["id"], i, repr(e)))
